@@ -271,6 +271,13 @@ Theorem c20_wiring_pinned :
 Proof. exact RM.C20.Wiring.wiring_pinned. Qed.
 Print Assumptions c20_wiring_pinned.
 
+(* the order of the steps of main_result and the argument of every std::process::exit, regenerated from the source *)
+Theorem c20_main_steps_pinned :
+  RM.Gen.C20Wiring.MAIN_STEPS = RM.C20.Wiring.pinned_main_steps /\
+  RM.Gen.C20Wiring.EXIT_CALLS = RM.C20.Wiring.pinned_exit_calls.
+Proof. exact RM.C20.Wiring.main_steps_pinned. Qed.
+Print Assumptions c20_main_steps_pinned.
+
 Theorem c20_every_sink_truncates : forall s m,
   In (s, m) RM.C20.Wiring.code_sink_modes -> m = Some file_create.
 Proof. exact RM.C20.Wiring.every_sink_truncates. Qed.
